@@ -48,24 +48,40 @@ termination_by inbuf.length
 
 /-! ### with an event sender registered (`config.event_sender = Some(..)`; the control connection) -/
 
-/-- A frame on stream `-1` is handed to `handle_event` (1880-1930): `parse_response` must yield `Response::Event`
-(`eventOk`: the EVENT opcode and a body that deserializes as an event) — then the event is forwarded and the
-request path is not touched; anything else ends the router with `CqlEventHandlingError`. Other streams as before. -/
-def deliverFrameEv (eventOk : Frame → Bool) (c : Conn) (f : Frame) : Conn :=
-  if f.stream = -1 then
-    if c.broken then c
-    else if eventOk f then c
-    else step c (.break_ .cqlEventHandlingError)
-  else deliverFrame c f
+/-- The event channel as the reader sees it (`mpsc::Sender<Event>`; the control connection's has capacity 32,
+`control_connection.rs:413`): the receiver may be gone, and there may be no free slot. -/
+structure EvChan where
+  closed : Bool := false     -- the receiver was dropped: `event_sender.send(..)` fails (`SendError`)
+  room : Nat                 -- free slots; `send(..).await` blocks while there is none
+  deriving Repr, DecidableEq
 
-/-- `reader` for a connection with an event sender. -/
-def readerEv (eventOk : Frame → Bool) (c : Conn) (inbuf : List UInt8) (eof : Bool) : Conn × List UInt8 :=
-  if c.broken then (c, inbuf) else
+/-- A frame on stream `-1` is handed to `handle_event` (1880-1930): `parse_response` must yield `Response::Event`
+(`eventOk`: the EVENT opcode and a body that deserializes as an event), else the router ends with
+`CqlEventHandlingError`; a well-formed event is then SENT on the event channel (`event_sender.send(event).await`,
+1920-1923): receiver gone → `CqlEventHandlingError::SendError`, the router ends; no free slot → the reader BLOCKS
+there (`none`: nothing else is read on this connection until the consumer makes room); otherwise the event is
+forwarded and the request path is not touched. Other streams as without an event sender. -/
+def deliverFrameEv (eventOk : Frame → Bool) (ch : EvChan) (c : Conn) (f : Frame) : Option (Conn × EvChan) :=
+  if f.stream = -1 then
+    if c.broken then some (c, ch)
+    else if !eventOk f then some (step c (.break_ .cqlEventHandlingError), ch)
+    else if ch.closed then some (step c (.break_ .cqlEventHandlingError), ch)
+    else if ch.room = 0 then none
+    else some (c, { ch with room := ch.room - 1 })
+  else some (deliverFrame c f, ch)
+
+/-- `reader` for a connection with an event sender. Returns the connection, the bytes that stay buffered (from the
+frame the reader is blocked on, if it is blocked) and the event channel. -/
+def readerEv (eventOk : Frame → Bool) (ch : EvChan) (c : Conn) (inbuf : List UInt8) (eof : Bool) :
+    Conn × List UInt8 × EvChan :=
+  if c.broken then (c, inbuf, ch) else
   match h : readFrame inbuf with
   | .frame f rest =>
     have : rest.length < inbuf.length := readFrame_rest_lt h
-    readerEv eventOk (deliverFrameEv eventOk c f) rest eof
-  | r => (readerStop c r eof, inbuf)
+    match deliverFrameEv eventOk ch c f with
+    | none => (c, inbuf, ch)
+    | some (c', ch') => readerEv eventOk ch' c' rest eof
+  | r => (readerStop c r eof, inbuf, ch)
 termination_by inbuf.length
 
 /-- BYTES: the frame the reader hands to request `r` when the whole frames `fs` arrive in state `c` — the first
